@@ -75,6 +75,16 @@ Theorem C16_drained : forall tr s, run init tr = Some s -> pcs s = [] -> queue s
 Proof. exact drained. Qed.
 Print Assumptions C16_drained.
 
+(* Per-producer order: if producer p offered x before x' and both were appended, x was appended (hence, by
+   C16_fifo, delivered) first. *)
+Theorem C16_producer_order : forall tr1 p x tr2 x' tr3 s,
+  run init (tr1 ++ PRead1 p x :: tr2 ++ PRead1 p x' :: tr3) = Some s ->
+  NoDup (map ident (offered (tr1 ++ PRead1 p x :: tr2 ++ PRead1 p x' :: tr3))) ->
+  In x (enq s) -> In x' (enq s) ->
+  exists l1 l2 l3, enq s = l1 ++ x :: l2 ++ x' :: l3.
+Proof. exact producer_order. Qed.
+Print Assumptions C16_producer_order.
+
 (* ---- sequential corollaries (a put that runs without interleaving = seq_put; it is a run of the LTS) *)
 
 Theorem C16_seq_put_is_run : forall s p x s', seq_put p x s = Some s' ->
@@ -160,3 +170,13 @@ Example C16_event_nonvacuous :
   event_eqb (mkEvent CDirMoved (PStr [97%N]) (PStr [98%N]) true)
             (mkEvent CDirMoved (PStr [97%N]) (PStr [98%N]) true) = true.
 Proof. vm_compute. repeat split. Qed.
+
+(* the hypotheses of C16_producer_order are satisfiable: producer 1 puts a, then b *)
+Example C16_producer_order_nonvacuous :
+  let a := (1, 7)%N in let b := (2, 8)%N in
+  let tr := ([] ++ PRead1 1 a :: [PPut 1] ++ PRead1 1 b :: [PRead2 1; PPut 1])%N in
+  exists s, run init tr = Some s /\ NoDup (map ident (offered tr)) /\ In a (enq s) /\ In b (enq s) /\ enq s = [a; b].
+Proof.
+  eexists. split; [vm_compute; reflexivity|]. vm_compute.
+  repeat split; repeat constructor; simpl; intuition discriminate.
+Qed.
